@@ -96,6 +96,9 @@ def run_fit(
     elif container == "tuple":
         callbacks_list = callbacks
         callbacks = tuple(callbacks)
+    elif container == "iterator":
+        callbacks_list = callbacks
+        callbacks = (cb for cb in callbacks)  # a one-shot iterable is a legal way to hand over callbacks
     elif container == "CallbackList":
         from qucumber.callbacks import CallbackList
 
